@@ -64,6 +64,17 @@ func NewReporter(property string) *Reporter {
 	return &Reporter{Property: property, seen: map[string]bool{}, Analysed: map[string]int{}}
 }
 
+// ApplyReference raises each rule's minimum instance count to the count recorded for the reference
+// tree (reference_counts.json): an obligation that silently disappears — because the construct it was
+// attached to was deleted — must not make the check pass.
+func (r *Reporter) ApplyReference(ref map[string]int) {
+	for _, st := range r.Stats {
+		if n, ok := ref[st.Rule]; ok && n > st.Min {
+			st.Min = n
+		}
+	}
+}
+
 // Begin starts a rule.
 func (r *Reporter) Begin(rule, family, doc string, min int) {
 	r.cur = &RuleStat{Rule: rule, Family: family, Doc: doc, Min: min}
